@@ -320,7 +320,8 @@ def coq_eval(name, text, timeout=900):
     with open(p, "w", encoding="utf8") as f:
         f.write(text)
     rc, out = sh(["coqc", "-R", ".", "Zn", "-w", "-notation-overridden,-deprecated-hint-without-locality", os.path.join("cases", name + ".v")], cwd=COQ, timeout=timeout, mem_gb=12)
-    for ext in (".vo", ".vok", ".vos", ".glob"):
+    # the case file itself is kept only when its evaluation failed (for inspection)
+    for ext in (".vo", ".vok", ".vos", ".glob") + ((".v",) if rc == 0 and not os.environ.get("VERIF_KEEP_CASES") else ()):
         try:
             os.remove(os.path.join(d, name + ext))
         except OSError:
